@@ -188,6 +188,7 @@ impl Model {
 struct Stats {
     histories: u64,
     events: u64,
+    burst_moves: u64,
     reads: u64,
     distinct_states: HashSet<u64>,
     sample: Option<J>,
@@ -330,6 +331,20 @@ fn run_history(ctx: &Ctx, t: &Tables, rng: &mut Rng, hist_id: u64, st: &mut Stat
                     mx = mx.wrapping_add(*dx as u8);
                     my = my.wrapping_sub(*dy as u8);
                 }
+                // a host often delivers several motion events before the program polls the ports again
+                if rng.chance(1, 3) {
+                    for _ in 0..1 + rng.below(4) {
+                        let (rx, ry) = (rng.u8() as i8, rng.u8() as i8);
+                        let (ex, ey) = (*rng.pick(&[127i8, -128, 100, -100, 64, 1, rx]), *rng.pick(&[127i8, -128, 90, -90, -64, -1, ry]));
+                        m.emu.send_mouse_pos_diff(ex, ey);
+                        log.push(format!("Move({}, {}) [no port read since the previous event]", ex, ey));
+                        st.burst_moves += 1;
+                        if cfg.mouse {
+                            mx = mx.wrapping_add(ex as u8);
+                            my = my.wrapping_sub(ey as u8);
+                        }
+                    }
+                }
             }
         }
         let _ = mouse_expect_change;
@@ -399,7 +414,7 @@ pub fn run(ctx: &Ctx) -> Evidence {
     let shards = 64usize;
     let res = par_map(ctx.jobs(), shards, |sh| {
         let t = tables();
-        let mut st = Stats { histories: 0, events: 0, reads: 0, distinct_states: HashSet::new(), sample: None };
+        let mut st = Stats { histories: 0, events: 0, burst_moves: 0, reads: 0, distinct_states: HashSet::new(), sample: None };
         let per = (n_hist as usize + shards - 1) / shards;
         for i in 0..per {
             let hid = (sh * per + i) as u64;
@@ -412,6 +427,7 @@ pub fn run(ctx: &Ctx) -> Evidence {
     let mut states = HashSet::new();
     for r in res {
         ev.evaluations += r.events;
+        ev.add_num("motion_events_sent_without_a_port_read_in_between", r.burst_moves);
         ev.add_num("histories", r.histories);
         ev.add_num("port_reads_compared", r.reads);
         states.extend(r.distinct_states);
